@@ -12,6 +12,7 @@ From LR Require Import lib.Base model.Paging proofs.PagingP.
 From LR Require Import gen.Consts.
 From LR Require Import proofs.PagingContentP.
 From LR Require Import proofs.PagingRetryP.
+From LR Require Import proofs.PagingTailP.
 From Coq Require Import Permutation.
 
 (* ---- pages, no appends: for every store, filter, merge order, limit script and resume script over
@@ -83,6 +84,39 @@ Print Assumptions C03_appends_complete.
 Theorem C03_append_only : forall st apps p, exists more, part_events (apply_appends st apps) p = part_events st p ++ more.
 Proof. exact appends_extend. Qed.
 Print Assumptions C03_append_only.
+
+(* ---- a read that starts at Pos "tail" (every partition has a chunk; no chunk id is the largest one, the CId of the
+   tail position): the first page is empty and returns concrete positions, the ends of the partitions as they are at
+   that request (store st1); what was stored then, followed by what the pages deliver, is exactly the matching events
+   among the first N stored events of the final store - nothing stored before the read began is delivered, nothing
+   appended after it is skipped or repeated, for every chain of the four kinds and all appends between the pages *)
+Theorem C03_tail : forall clear filtered flt choose strict st s1 tl,
+  wf_store st -> tail_ready (apply_appends st (s_apps s1)) -> no_retry (s1 :: tl) ->
+  let st1 := apply_appends st (s_apps s1) in
+  let rs := run_from clear filtered flt choose strict st PTail (s1 :: tl) in
+  let stf := final_store st (s1 :: tl) in
+  Forall (fun r => rs_ok r = true) rs /\
+  forall p, filter (eff_flt filtered flt) (map (obs p) (part_events st1 p)) ++ events_of p (concat (map rs_events rs)) =
+            filter (eff_flt filtered flt) (map (obs p) (firstn (pos_of stf p (last (map rs_pos rs) PTail)) (part_events stf p))).
+Proof.
+  intros clear filtered flt choose strict st s1 tl Hwf Hr Hnr.
+  destruct (tail_read clear filtered flt choose strict st s1 tl Hwf Hr Hnr) as [A [B _]]. split; assumption.
+Qed.
+Print Assumptions C03_tail.
+
+(* a read from "tail" that reached the end has delivered, per partition, exactly the matching events among those
+   appended after its first request *)
+Theorem C03_tail_complete : forall clear filtered flt choose strict st s1 tl,
+  wf_store st -> tail_ready (apply_appends st (s_apps s1)) -> no_retry (s1 :: tl) -> choose_valid choose ->
+  last_page_short (s1 :: tl) (run_from clear filtered flt choose strict st PTail (s1 :: tl)) ->
+  forall p, exists more, part_events (final_store st (s1 :: tl)) p = part_events (apply_appends st (s_apps s1)) p ++ more /\
+    events_of p (concat (map rs_events (run_from clear filtered flt choose strict st PTail (s1 :: tl)))) =
+    filter (eff_flt filtered flt) (map (obs p) more).
+Proof.
+  intros clear filtered flt choose strict st s1 tl Hwf Hr Hnr Hv Hsh.
+  destruct (tail_read clear filtered flt choose strict st s1 tl Hwf Hr Hnr) as [_ [_ C]]. exact (C Hv Hsh).
+Qed.
+Print Assumptions C03_tail_complete.
 
 (* ---- the invariant behind it, at the level of one partition's iterator: Get returns the record at the flat index
    of the position and leaves the index unchanged; Next advances it by one (or stays at the end) *)
@@ -223,6 +257,16 @@ Example C03_ex_run :
   = [[(0%nat, 10%Z); (1%nat, 20%Z)]; [(0%nat, 30%Z)]; [(1%nat, 40%Z)]; [(0%nat, 50%Z)]; [(1%nat, 60%Z)]]
   /\ last_page_short ex3_steps (run_from false false (fun _ => true) choose_min false ex3_store PHead ex3_steps).
 Proof. vm_compute. split; [reflexivity|lia]. Qed.
+
+(* a read from "tail" over the same store: the first page is empty, the pages after it deliver the appended events *)
+Example C03_ex_tail :
+  tail_ready ex3_store /\
+  map (fun r => map (fun e => (o_src e, o_ts e)) (rs_events r))
+      (run_from true false (fun _ => true) choose_min true ex3_store PTail
+         [mkStep RSame 3 false []; mkStep RSame 5 true [mkApp 1 9 [mkEv 60 [x66] [x67]]];
+          mkStep RPosOnly 5 false [mkApp 0 7 [mkEv 70 [x68] []]]; mkStep REvict 5 false []])
+  = [[]; [(1%nat, 60%Z)]; [(0%nat, 70%Z)]; []].
+Proof. split; [repeat constructor; cbn; try discriminate; lia|vm_compute; reflexivity]. Qed.
 
 (* ---- the two witnesses under the repairs (what `repo_clears_fields` / `repo_strict_pos` = true mean):
    with Unmarshal clearing Fields (the code) the retried page of ex1 carries the stored fields; with a provider that never
